@@ -119,6 +119,10 @@ type Case struct {
 	// op "burst": run these "call" cases with Workers goroutines (1 = sequentially)
 	Burst   []Case `json:"burst,omitempty"`
 	Workers int    `json:"workers,omitempty"`
+	// ReqBody: bytes streamed as the HTTP request body of a method declared with
+	// SkipRequestBodyEncodeDecode (the generated client takes them from
+	// <Method>RequestData.Body).
+	ReqBody []byte `json:"req_body,omitempty"`
 	// InMemory: the tap hands the request to the mounted handler directly
 	// (httptest recorder) instead of sending it over the loopback listener.
 	// Socket I/O makes the race detector order every write before every later
@@ -132,6 +136,9 @@ type StubSpec struct {
 	Result    value.V    `json:"result"`
 	View      string     `json:"view,omitempty"`
 	Error     *ErrorSpec `json:"error,omitempty"`
+	// RespBody: bytes the stub streams as the HTTP response body of a method
+	// declared with SkipResponseBodyEncodeDecode.
+	RespBody []byte `json:"resp_body,omitempty"`
 }
 
 // ErrorSpec describes the error the stub returns.
@@ -242,6 +249,13 @@ type Obs struct {
 	GRPCHeader   map[string][]string `json:"grpc_header,omitempty"`
 	GRPCTrailer  map[string][]string `json:"grpc_trailer,omitempty"`
 	GRPCCode     string              `json:"grpc_code,omitempty"`
+	// streamed bodies (SkipRequestBodyEncodeDecode / SkipResponseBodyEncodeDecode)
+	HadReqBody      bool   `json:"had_req_body,omitempty"`
+	ReceivedBody    []byte `json:"received_body,omitempty"`
+	ReceivedBodyErr string `json:"received_body_err,omitempty"`
+	HadRespBody     bool   `json:"had_resp_body,omitempty"`
+	ResultBody      []byte `json:"result_body,omitempty"`
+	ResultBodyErr   string `json:"result_body_err,omitempty"`
 }
 
 type caseState struct {
@@ -739,15 +753,76 @@ func (h *H) call(cs *caseState) {
 		}
 		payload = pv.Interface()
 	}
+	// methods that stream the request body take <Method>RequestData{Payload, Body}
+	if rdt, ok := dataType(m.def, c.Method, "RequestData"); ok {
+		rd := reflect.New(rdt)
+		if payload != nil {
+			pf := rd.Elem().FieldByName("Payload")
+			pv := reflect.ValueOf(payload)
+			if pf.IsValid() && pv.Type().AssignableTo(pf.Type()) {
+				pf.Set(pv)
+			} else if pf.IsValid() && pf.Kind() == reflect.Pointer && pv.Type().AssignableTo(pf.Type().Elem()) {
+				np := reflect.New(pf.Type().Elem())
+				np.Elem().Set(pv)
+				pf.Set(np)
+			}
+		}
+		if bf := rd.Elem().FieldByName("Body"); bf.IsValid() {
+			bf.Set(reflect.ValueOf(io.NopCloser(bytes.NewReader(c.ReqBody))))
+		}
+		payload = rd.Interface()
+	}
 	res, cerr := ep(context.WithValue(context.Background(), ctxKey, cs), payload)
+	// methods that stream the response body return <Method>ResponseData{Result, Body}
+	var respBody []byte
+	hadRespBody, respBodyErr := false, ""
+	if res != nil {
+		if rdt, ok := dataType(m.def, c.Method, "ResponseData"); ok {
+			rv := reflect.ValueOf(res)
+			if rv.Kind() == reflect.Pointer && !rv.IsNil() && rv.Elem().Type() == rdt {
+				if bf := rv.Elem().FieldByName("Body"); bf.IsValid() && !bf.IsNil() {
+					if rc, ok := bf.Interface().(io.ReadCloser); ok {
+						b, err := io.ReadAll(rc)
+						_ = rc.Close()
+						respBody, hadRespBody = b, true
+						if err != nil {
+							respBodyErr = err.Error()
+						}
+					}
+				}
+				if rf := rv.Elem().FieldByName("Result"); rf.IsValid() {
+					res = rf.Interface()
+					if rf.Kind() == reflect.Pointer && rf.IsNil() {
+						res = nil
+					}
+				} else {
+					res = nil
+				}
+			}
+		}
+	}
 	cs.mu.Lock()
 	defer cs.mu.Unlock()
+	cs.obs.HadRespBody, cs.obs.ResultBody, cs.obs.ResultBodyErr = hadRespBody, respBody, respBodyErr
 	if cerr != nil {
 		cs.obs.ClientErr = observeErr(cerr)
 	} else if res != nil {
 		cs.obs.HasResult = true
 		cs.obs.Result = ToV(reflect.ValueOf(res))
 	}
+}
+
+var tReadCloser = reflect.TypeOf((*io.ReadCloser)(nil)).Elem()
+
+// dataType finds the <Method>RequestData / <Method>ResponseData struct of a method.
+func dataType(def *ServiceDef, method, suffix string) (reflect.Type, bool) {
+	want := norm(method) + norm(suffix)
+	for n, t := range def.Types {
+		if norm(n) == want && t.Kind() == reflect.Struct {
+			return t, true
+		}
+	}
+	return nil, false
 }
 
 // burst runs the "call" cases of c.Burst with c.Workers goroutines.
@@ -877,9 +952,21 @@ func (h *H) Invoke(svc, method string, ctx context.Context, args []any, results 
 	cs.mu.Lock()
 	defer cs.mu.Unlock()
 	cs.obs.StubCalls++
+	for _, a := range args {
+		// a streamed request body (SkipRequestBodyEncodeDecode): drain it
+		if rc, ok := a.(io.ReadCloser); ok && rc != nil {
+			b, err := io.ReadAll(rc)
+			_ = rc.Close()
+			cs.obs.HadReqBody = true
+			cs.obs.ReceivedBody = b
+			if err != nil {
+				cs.obs.ReceivedBodyErr = err.Error()
+			}
+		}
+	}
 	if len(args) > 0 && args[0] != nil {
 		rv := reflect.ValueOf(args[0])
-		if !(rv.Kind() == reflect.Interface) {
+		if _, isBody := args[0].(io.ReadCloser); !isBody && !(rv.Kind() == reflect.Interface) {
 			cs.obs.HadPayload = true
 			cs.obs.Received = ToV(rv)
 		}
@@ -892,6 +979,9 @@ func (h *H) Invoke(svc, method string, ctx context.Context, args []any, results 
 	for i, rt := range results {
 		switch {
 		case rt == tError:
+		case rt == tReadCloser:
+			// the streamed response body (SkipResponseBodyEncodeDecode)
+			out[i] = io.NopCloser(bytes.NewReader(spec.RespBody))
 		case rt.Kind() == reflect.String && i > 0 && len(results) == 3:
 			out[i] = spec.View
 		case i == 0 && spec.HasResult:
